@@ -1,5 +1,5 @@
 """Which obligations exist, which property each serves, how counterexamples are confirmed natively."""
-from .obligations import version, table
+from .obligations import version, table, versionset
 
 ASSUMPTIONS = [
     'Engine B: the MIR executor (mirse/exec.py) and the std/dependency summaries (mirse/lib.py) are trusted; every counterexample is replayed on the native build, passing witnesses are replayed differentially',
@@ -30,10 +30,15 @@ OBLIGATIONS = {
              'confirm': version.o1_4_confirm, 'witness_ok': version.o1_4_witness_ok},
     'O1.6': {'engine': 'B', 'title': 'Table::get distinguishes value / deleted / not-in-this-file correctly for every lookup bound', 'run': table.o1_6_table_get,
              'confirm': table.o1_6_confirm, 'witness_ok': table.o1_6_witness_ok},
+    'O1.7': {'engine': 'B', 'title': 'manifest snapshot records (level, number, size, smallest..largest) of every file of the current version', 'run': versionset.o1_7_write_snapshot,
+             'confirm': versionset.o1_7_confirm, 'witness_ok': versionset.o1_7_witness_ok},
+    'O8.2': {'engine': 'B', 'title': 'log_and_apply reports a failed manifest write and does not install the version', 'run': versionset.o8_2_log_and_apply,
+             'confirm': versionset.o8_2_confirm},
 }
 
 PROPERTIES = {
     'C07': {'obligations': ['O7.1', 'O7.2', 'O7.3', 'O7.4a', 'O7.4b', 'O7.4c']},
-    'C01': {'obligations': ['O1.3', 'O1.4', 'O1.6']},
+    'C01': {'obligations': ['O1.3', 'O1.4', 'O1.6', 'O1.7']},
+    'C08': {'obligations': ['O8.2']},
     'C10': {'obligations': ['O7.1', 'O1.3', 'O10.3']},
 }
